@@ -509,7 +509,14 @@ func polygonPairs(c *mon.Case) {
 		return
 	}
 	q := gen.RegularSpec(gen.Near(r, ctr, pl.d), 4+r.Intn(40), pl.rq, r.Float64()*7)
-	if len(extras) > 0 && r.Intn(4) == 0 { // Q inside one of the far-away extra shells
+	if r.Intn(10) == 0 { // Q is exactly the hole's loop as a shell (the "plug" of the hole): every edge shared, reversed
+		pl = place{"plug-of-hole", 0, hole.RMax, false, false, true}
+		q = gen.LoopSpec{Vs: hole.Vs, Center: ctr, RMin: hole.RMin, RMax: hole.RMax, Kind: "plug"}
+		if hasIsland {
+			pl.pIntersects = true // the island lies inside the plug
+		}
+		c.Count("polygons.plug_of_hole", 1)
+	} else if len(extras) > 0 && r.Intn(4) == 0 { // Q inside one of the far-away extra shells
 		ex := extras[r.Intn(len(extras))]
 		pl = place{"in-extra-shell", 0, ex.RMin * 0.4, true, true, true}
 		q = gen.RegularSpec(gen.Near(r, ex.Center, ex.RMin*0.3*r.Float64()), 3+r.Intn(10), pl.rq, r.Float64()*7)
@@ -571,6 +578,13 @@ func polygonPairs(c *mon.Case) {
 	}
 	if got := Qc.Contains(Pc); got != pc {
 		c.Violation("Polygon/law/Contains-iff-complements-reversed/wrong-answer", fmt.Sprintf("P.Contains(Q)=%v but ~Q.Contains(~P)=%v", pc, got), det)
+	}
+	// the same two laws with the roles of P and Q exchanged
+	if got := Qc.Contains(P); got == qi {
+		c.Violation("Polygon/law/Intersects-iff-complement-not-contains/wrong-answer", fmt.Sprintf("Q.Intersects(P)=%v but ~Q.Contains(P)=%v", qi, got), det)
+	}
+	if got := Pc.Contains(Qc); got != qc {
+		c.Violation("Polygon/law/Contains-iff-complements-reversed/wrong-answer", fmt.Sprintf("Q.Contains(P)=%v but ~P.Contains(~Q)=%v", qc, got), det)
 	}
 	if !P.Contains(P) || !P.Intersects(P) {
 		var all [][]string
